@@ -23,7 +23,7 @@ UNIT_TIMEOUT = 900
 SIGMA_U = ["x", "y", ":"]
 NAMES = ["a", "b", "c", "d"]
 DELIMS = [":", "/", "::"]
-MODES = ["ctor", "incremental", "ctor+add", "synonyms-late", "shared-list", "first-of-a-chain"]
+MODES = ["ctor", "incremental", "ctor+add", "synonyms-late", "shared-list", "first-of-a-chain", "shallow-copy"]
 
 
 def bounds(tier):
@@ -124,6 +124,21 @@ def construct(recs, delim, mode, probe=None):
 
         conv = build_shared_list(recs, delim)
         conv._c01_effective_model = True   # "registered" is what the converter's own records list says
+        return conv
+    if mode == "shallow-copy":
+        # a shallow copy taken before the last record arrives through the original, then something added through the copy:
+        # both objects share their state, each must answer for what its own records list says
+        import copy as _copy
+
+        orig = Converter([to_record(r) for r in recs[:-1]], delimiter=delim)
+        orig.compress("zq:1")
+        conv = _copy.copy(orig)
+        orig.add_record(to_record(recs[-1]))
+        conv.add_prefix("zq", "zq:")
+        probe_model = model_of(orig)
+        if probe:
+            probe(orig, Model(probe_model.records, delim))
+        conv._c01_effective_model = True
         return conv
     if mode == "first-of-a-chain":
         # the converter was the first input of a chain whose result learnt more URI prefixes (also inside its own ones)
